@@ -8,6 +8,12 @@
 #ifndef VF_H_
 #define VF_H_
 
+/* evconfig-private.h defines _GNU_SOURCE 1 for every libevent TU; vf.h pulls libc headers in first, so it has to be
+ * in force already here (otherwise e.g. TIMEVAL_TO_TIMESPEC silently becomes an undefined function in epoll.c) */
+#ifndef _GNU_SOURCE
+#define _GNU_SOURCE 1
+#endif
+
 #include <stddef.h>
 #include <stdint.h>
 #include <limits.h>
